@@ -11,6 +11,7 @@ import Dawgs.Proofs.C18
 import Dawgs.Proofs.C18Metrics
 import Dawgs.Proofs.C18Multi
 import Dawgs.Model.C18Num
+import Dawgs.Model.C18Json
 namespace Dawgs.C18.Props
 open Dawgs.C18
 
@@ -388,6 +389,164 @@ theorem int_round_trip_current_lossy :
 /-- with hooks/C18-fix.patch every int64 survives the round trip exactly -/
 theorem int_round_trip_fixed (i : Int) (h : inInt64 i) : loadIntFixed i = i := by
   unfold loadIntFixed; rw [if_pos h]
+
+/-! ### Property values: every JSON kind, Go types after load -/
+
+section Values
+variable {F : Type}
+
+/-- What a property value comes back as, for EVERY value (all kinds, any nesting): `normalizeVal` of it. Hypothesis: the
+int64 values are int64 (`IntsFit`). Uses `F64.round_trip` (named assumption float_text_round_trip). -/
+theorem decode_encode_value (m : F64 F) (v : GVal F) (h : IntsFit v) : decodeVal m (encodeVal m v) = normalizeVal m v := by
+  induction v with
+  | null => rfl
+  | bool b => rfl
+  | str s => rfl
+  | int i =>
+    have hi : inInt64 i := h
+    simp [encodeVal, decodeVal, normalizeVal, hi]
+  | flt f =>
+    simp only [encodeVal, normalizeVal]
+    cases hf : m.intText f with
+    | none => rfl
+    | some i =>
+      simp only [decodeVal]
+      by_cases hi : inInt64 i
+      · rw [if_pos hi, if_pos hi]
+      · rw [if_neg hi, if_neg hi, m.round_trip f i hf]
+  | arrNil => rfl
+  | arrCons a b iha ihb =>
+    have h' : IntsFit a ∧ IntsFit b := h
+    simp only [encodeVal, decodeVal, normalizeVal, iha h'.1, ihb h'.2]
+  | objNil => rfl
+  | objCons k a b iha ihb =>
+    have h' : IntsFit a ∧ IntsFit b := h
+    simp only [encodeVal, decodeVal, normalizeVal, iha h'.1, ihb h'.2]
+
+theorem canon_intsFit (m : F64 F) (v : GVal F) (h : Canon m v) : IntsFit v := by
+  induction v with
+  | int i => exact h
+  | arrCons a b iha ihb => exact ⟨iha h.1, ihb h.2⟩
+  | objCons k a b iha ihb => exact ⟨iha h.1, ihb h.2⟩
+  | _ => trivial
+
+theorem normalize_canon (m : F64 F) (v : GVal F) (h : Canon m v) : normalizeVal m v = v := by
+  induction v with
+  | flt f =>
+    simp only [normalizeVal]
+    cases hf : m.intText f with
+    | none => rfl
+    | some i =>
+      have : ¬ inInt64 i := h i hf
+      simp only [if_neg this]
+  | arrCons a b iha ihb => simp only [normalizeVal, iha h.1, ihb h.2]
+  | objCons k a b iha ihb => simp only [normalizeVal, iha h.1, ihb h.2]
+  | _ => rfl
+
+/-- The value round trip, Go types included: on the image `Canon` (int64 inside int64; no float64 that prints as an integer
+literal inside int64) load gives back exactly the value: null, bool, string, int64 of any magnitude, float64, arrays,
+objects, any nesting. -/
+theorem value_round_trip (m : F64 F) (v : GVal F) (h : Canon m v) : decodeVal m (encodeVal m v) = v := by
+  rw [decode_encode_value m v (canon_intsFit m v h), normalize_canon m v h]
+
+/-- Outside `Canon` only the Go type of a number changes: the value that comes back is written as the SAME JSON value
+(JSON-equal), and a second round trip changes nothing. -/
+theorem normalize_json_equal (m : F64 F) (v : GVal F) :
+    encodeVal m (normalizeVal m v) = encodeVal m v ∧ normalizeVal m (normalizeVal m v) = normalizeVal m v := by
+  induction v with
+  | flt f =>
+    simp only [normalizeVal]
+    cases hf : m.intText f with
+    | none => simp [encodeVal, normalizeVal, hf]
+    | some i =>
+      by_cases hi : inInt64 i
+      · simp [encodeVal, normalizeVal, hf, hi]
+      · simp [encodeVal, normalizeVal, hf, hi]
+  | arrCons a b iha ihb => simp only [normalizeVal, encodeVal, iha.1, ihb.1, iha.2, ihb.2, and_self]
+  | objCons k a b iha ihb => simp only [normalizeVal, encodeVal, iha.1, ihb.1, iha.2, ihb.2, and_self]
+  | _ => exact ⟨rfl, rfl⟩
+
+/-- the type change exists: a float64 that prints as `3` comes back as int64 3 -/
+theorem integral_float_becomes_int (m : F64 F) (f : F) (i : Int) (hf : m.intText f = some i) (hi : inInt64 i) :
+    decodeVal m (encodeVal m (.flt f)) = .int i := by
+  simp [encodeVal, decodeVal, hf, hi]
+
+def mapGraph {P Q : Type} (f : P → Q) (g : Graph P) : Graph Q :=
+  { name := g.name, nodes := g.nodes.map (fun n => ⟨n.id, n.kinds, f n.props⟩),
+    edges := g.edges.map (fun e => ⟨e.id, e.src, e.dst, e.kind, f e.props⟩) }
+
+theorem wf_mapGraph {P Q : Type} (f : P → Q) (g : Graph P) (hw : WF g) : WF (mapGraph f g) := by
+  constructor
+  · simpa [mapGraph, List.map_map, Function.comp_def] using hw.nodeIds
+  · simpa [mapGraph, List.map_map, Function.comp_def] using hw.edgeIds
+  · intro e he
+    simp only [mapGraph, List.mem_map] at he
+    obtain ⟨e0, he0, rfl⟩ := he
+    obtain ⟨⟨n1, hn1, h1⟩, ⟨n2, hn2, h2⟩⟩ := hw.endpoints e0 he0
+    exact ⟨⟨_, List.mem_map.mpr ⟨n1, hn1, rfl⟩, h1⟩, ⟨_, List.mem_map.mpr ⟨n2, hn2, rfl⟩, h2⟩⟩
+
+theorem iso_mapGraph {P Q : Type} (f : P → Q) (g : Graph P) (ns : List (Node P)) (es : List (Edge P)) (φ : Nat → Nat)
+    (h : Iso g ns es φ) :
+    Iso (mapGraph f g) (ns.map (fun n => ⟨n.id, n.kinds, f n.props⟩)) (es.map (fun e => ⟨e.id, e.src, e.dst, e.kind, f e.props⟩)) φ := by
+  constructor
+  · have := h.inj
+    simpa [mapGraph, List.map_map, Function.comp_def] using this
+  · have := h.nodes.map (fun t : Nat × List String × P => (t.1, t.2.1, f t.2.2))
+    simpa [mapGraph, List.map_map, Function.comp_def] using this
+  · have := h.edges.map (fun t : Nat × Nat × String × P => (t.1, t.2.1, t.2.2.1, f t.2.2.2))
+    simpa [mapGraph, List.map_map, Function.comp_def] using this
+
+/-- `load_iso` with the property clause at the level of Go values of every JSON kind. The source graph carries Go values;
+the dump writes their JSON values (`encodeVal`) through any codec with dec(enc x) = x over JSON-valued records; the loader
+decodes them (`decodeVal`). The loaded graph is isomorphic to the source with every property value normalised
+(`normalizeVal`: JSON-equal, only integral float64 inside int64 become int64), and isomorphic to the source itself when
+all property values are in `Canon`. -/
+theorem load_iso_values {B D : Type} [DecidableEq D] (m : F64 F) (c : Codec (JVal F) B D) (g : Graph (GVal F)) (hw : WF g)
+    (hfit : (∀ n ∈ g.nodes, IntsFit n.props) ∧ (∀ e ∈ g.edges, IntsFit e.props))
+    (batch shard lbatch : Nat) (hb : 1 ≤ batch)
+    (alloc allocE : Nat → Nat) (halloc : ∀ a b, alloc a = alloc b → a = b) (nc ec : Nat) :
+    ∃ gd d idmap, dumpGraph c (mapGraph (encodeVal m) g) batch shard = .ok gd ∧
+      load c gd lbatch alloc allocE { nodes := [], edges := [], nodeCtr := nc, edgeCtr := ec } = .ok (d, idmap) ∧
+      Iso (mapGraph (normalizeVal m) g)
+        (d.nodes.map (fun n => ⟨n.id, n.kinds, decodeVal m n.props⟩))
+        (d.edges.map (fun e => ⟨e.id, e.src, e.dst, e.kind, decodeVal m e.props⟩)) (phiOf idmap) ∧
+      (((∀ n ∈ g.nodes, Canon m n.props) ∧ (∀ e ∈ g.edges, Canon m e.props)) →
+        Iso g (d.nodes.map (fun n => ⟨n.id, n.kinds, decodeVal m n.props⟩))
+          (d.edges.map (fun e => ⟨e.id, e.src, e.dst, e.kind, decodeVal m e.props⟩)) (phiOf idmap)) := by
+  obtain ⟨gd, d, idmap, hd, hl, hiso, _, _⟩ :=
+    load_iso c (mapGraph (encodeVal m) g) (wf_mapGraph _ g hw) batch shard lbatch hb alloc allocE halloc nc ec
+  have hdec := iso_mapGraph (decodeVal m) _ _ _ _ hiso
+  have hnorm : mapGraph (decodeVal m) (mapGraph (encodeVal m) g) = mapGraph (normalizeVal m) g := by
+    unfold mapGraph
+    simp only [List.map_map, Function.comp_def]
+    congr 1
+    · apply List.map_congr_left
+      intro n hn
+      simp only [decode_encode_value m n.props (hfit.1 n hn)]
+    · apply List.map_congr_left
+      intro e he
+      simp only [decode_encode_value m e.props (hfit.2 e he)]
+  rw [hnorm] at hdec
+  refine ⟨gd, d, idmap, hd, hl, hdec, ?_⟩
+  intro hcan
+  have hid : mapGraph (normalizeVal m) g = g := by
+    unfold mapGraph
+    cases g with
+    | mk name nodes edges =>
+      simp only
+      congr 1
+      · conv => rhs; rw [← List.map_id nodes]
+        apply List.map_congr_left
+        intro n hn
+        simp only [normalize_canon m n.props (hcan.1 n hn), id]
+      · conv => rhs; rw [← List.map_id edges]
+        apply List.map_congr_left
+        intro e he
+        simp only [normalize_canon m e.props (hcan.2 e he), id]
+  rw [hid] at hdec
+  exact hdec
+
+end Values
 
 /-! ### Non-vacuity -/
 
